@@ -1,6 +1,7 @@
 import RsddModel.Model.GenSddCore
 import RsddModel.Model.Sdd
 import RsddModel.Lemmas.TieSddCoreAux
+import RsddModel.Lemmas.TieSddCoreCompress
 /-!
 # Tie to the source text (translator route): the SDD builder core
 
@@ -191,10 +192,42 @@ theorem canonicalize_tie : @rCanonicalize = @canonicalize := by
   | rfl
   | (funext σ cmpr andF st node table; simp only [rCanonicalize, canonicalize]; tie_close)
 
-theorem compress_tie : @rCompress = @compress := by
+/-! `compress`: the regenerated index loops are the literal mirror of `Lemmas/TieSddCoreCompress.lean`, which is
+proved EQUAL to the model's list recursion (`compressIdx_eq`, same order of elements) -/
+
+theorem compress_while2_tie : @rCompress_while2 = @TieSddCoreCompress.compressWhile := by
   first
   | rfl
-  | (funext σ andF st node; simp only [rCompress, compress]; tie_close)
+  | (funext σ wf andF i fuel
+     induction fuel with
+     | zero => funext st node j; simp [rCompress_while2, TieSddCoreCompress.compressWhile]
+     | succ f ih =>
+       funext st node j
+       simp only [rCompress_while2, TieSddCoreCompress.compressWhile, ih]
+       split_all)
+
+theorem compress_for1_tie : @rCompress_for1 = @TieSddCoreCompress.compressFor := by
+  first
+  | rfl
+  | (funext σ wf andF k
+     induction k with
+     | zero => funext st i node; simp [rCompress_for1, TieSddCoreCompress.compressFor]
+     | succ k ih =>
+       funext st i node
+       simp only [rCompress_for1, TieSddCoreCompress.compressFor, ih, compress_while2_tie]
+       split_all)
+
+theorem compress_tie : @rCompress = @TieSddCoreCompress.compressIdx := by
+  first
+  | rfl
+  | (funext σ wf andF st node
+     simp only [rCompress, TieSddCoreCompress.compressIdx, compress_for1_tie]
+     split_all)
+
+/-- `compress` as the source reads IS the model's `compress` (fuel for the `while` ≥ length of the vector) -/
+theorem compress_source {σ : Type} (wf : Nat) (andF : AndF σ) (st : σ) (node : List Elem)
+    (hwf : node.length ≤ wf) : rCompress wf andF st node = Sdd.compress andF st node := by
+  rw [compress_tie]; exact TieSddCoreCompress.compressIdx_eq wf andF st node hwf
 
 theorem appCacheGet_tie :
     @rAppCacheGet = fun (A : CacheImpl (Ptr × Ptr)) (st : A.σ) (k : Elem) => A.get st k := by
@@ -439,7 +472,10 @@ end TieSddCore
 #print axioms TieSddCore.sddEq_tie
 #print axioms TieSddCore.canonBase_tie
 #print axioms TieSddCore.canonicalize_tie
+#print axioms TieSddCore.compress_while2_tie
+#print axioms TieSddCore.compress_for1_tie
 #print axioms TieSddCore.compress_tie
+#print axioms TieSddCore.compress_source
 #print axioms TieSddCore.appCacheGet_tie
 #print axioms TieSddCore.appCacheInsert_tie
 #print axioms TieSddCore.iteCacheGet_tie
